@@ -627,7 +627,7 @@ pub fn embedded(name: &str) -> Vec<Vec<u8>> {
         "hdr.content_disposition" => strs(HDR_CONTENT_DISPOSITION),
         "b64.standard" => strs(B64_STANDARD),
         "b64.urlsafe" => strs(B64_URLSAFE),
-        "ev.timeline" | "ev.sync_timeline" => cat(&[MESSAGE_EVENTS, STATE_EVENTS]),
+        "ev.timeline" | "ev.app_use" | "ev.sync_timeline" => cat(&[MESSAGE_EVENTS, STATE_EVENTS]),
         "ev.state" | "ev.sync_state" | "ev.stripped_state" => strs(STATE_EVENTS),
         "ev.to_device" => strs(TO_DEVICE_EVENTS),
         "ev.global_account_data" => strs(GLOBAL_ACCOUNT_DATA),
@@ -734,7 +734,7 @@ pub fn wants_fixture_files(name: &str) -> bool {
 pub fn wants_fixture_objects(name: &str) -> bool {
     matches!(
         name,
-        "ev.timeline" | "ev.sync_timeline" | "ev.state" | "ev.sync_state" | "ev.stripped_state" | "push.event" | "sig.canonical" | "sig.redact" | "sig.sign_json"
+        "ev.timeline" | "ev.app_use" | "ev.sync_timeline" | "ev.state" | "ev.sync_state" | "ev.stripped_state" | "push.event" | "sig.canonical" | "sig.redact" | "sig.sign_json"
             | "sig.hash_and_sign" | "sig.resign_verify" | "sig.verify_json" | "sig.verify_event"
     )
 }
